@@ -78,31 +78,31 @@ Proof.
   - (* push *) apply try_push_pushed_cap in H0. destruct H0 as [Hcap Hrcv]. eapply (shape_upd s _ c ch'); [exact C | reflexivity | reflexivity|].
     intros _ [K1 K2]. split; [lia | now rewrite Hrcv].
   - (* next, failure *) eapply shape_soc; [|apply length_close_all | reflexivity | exact C]. intros c. apply strict_close_all.
-  - (* add start *) split; [exact Hc|]. intros sid' a' Hl. cbn [adds with_adds] in Hl. destruct (Nat.eq_dec sid' sid) as [->|Hne].
+  - (* add start *) split; [exact Hc|]. intros sid' a' Hl. cbn [adds with_arcs with_adds] in Hl. destruct (Nat.eq_dec sid' sid) as [->|Hne].
     + rewrite lookup_put_same in Hl. inversion Hl; subst. exact H0.
     + rewrite lookup_put_other in Hl by assumption. eauto.
-  - split; [exact Hc|]. intros sid' a' Hl. cbn [adds with_adds] in Hl. apply in_del_lookup in Hl. eauto.
-  - split; [exact Hc|]. intros sid' a' Hl. cbn [adds with_adds] in Hl. destruct (Nat.eq_dec sid' sid) as [->|Hne].
+  - split; [exact Hc|]. intros sid' a' Hl. cbn [adds with_arcs with_adds] in Hl. apply in_del_lookup in Hl. eauto.
+  - split; [exact Hc|]. intros sid' a' Hl. cbn [adds with_arcs with_adds] in Hl. destruct (Nat.eq_dec sid' sid) as [->|Hne].
     + rewrite lookup_put_same in Hl. inversion Hl; subst. cbn. eauto.
     + rewrite lookup_put_other in Hl by assumption. eauto.
   - (* occupied *) subst c ch1 s1 s2. destruct (inv_entry _ _ I _ _ H2) as [_ Hlt].
     assert (Hnc : cursor (chan_at s (e_ch e)) sid = None).
     { apply (no_cursor s _ sid I Hlt); [eapply inv_ids; eassumption | eapply no_a2_pc; [eassumption | intros c0; congruence]]. }
     split.
-    + intros c0 Hlt0. cbn [chans with_adds with_streams with_subs] in Hlt0. rewrite chans_set_chan, length_upd in Hlt0. autorewrite with chat.
+    + intros c0 Hlt0. cbn [chans with_arcs with_adds with_streams with_subs] in Hlt0. rewrite chans_set_chan, length_upd in Hlt0. autorewrite with chat.
       destruct (Nat.eq_dec c0 (e_ch e)) as [->|Hne]; [rewrite chan_at_set_same by assumption | rewrite chan_at_set_other by assumption; now apply Hc].
       apply chok_subscribe; [destruct (a_q a); [apply chok_grow|]; now apply Hc | destruct (a_q a); exact Hnc].
-    + intros sid' a' Hl. cbn [adds with_adds with_streams with_subs set_chan with_chans] in Hl. apply in_del_lookup in Hl. eauto.
+    + intros sid' a' Hl. cbn [adds with_arcs with_adds with_streams with_subs set_chan with_chans] in Hl. apply in_del_lookup in Hl. eauto.
   - (* vacant *) subst c capacity s1 s2. split.
-    + intros c0 Hlt. cbn [chans with_adds with_subs with_chans] in Hlt. rewrite app_length in Hlt. cbn [length] in Hlt. autorewrite with chat.
+    + intros c0 Hlt. cbn [chans with_arcs with_adds with_subs with_chans] in Hlt. rewrite app_length in Hlt. cbn [length] in Hlt. autorewrite with chat.
       destruct (Nat.eq_dec c0 (length (chans s))) as [->|Hne].
       * rewrite chan_at_app_new. split; [|cbn; repeat constructor; tauto]. cbn. specialize (Ha _ _ H).
         destruct (a_q a) as [[|n]|]; [congruence | lia | unfold default_max_queued; lia].
       * rewrite chan_at_app_old by lia. apply Hc. lia.
-    + intros sid' a' Hl. cbn [adds with_adds] in Hl. destruct (Nat.eq_dec sid' sid) as [->|Hne].
+    + intros sid' a' Hl. cbn [adds with_arcs with_adds] in Hl. destruct (Nat.eq_dec sid' sid) as [->|Hne].
       * rewrite lookup_put_same in Hl. inversion Hl; subst. cbn. eauto.
       * rewrite lookup_put_other in Hl by assumption. eauto.
-  - (* add sender *) split; [exact Hc|]. intros sid' a' Hl. cbn [adds with_adds] in Hl. apply in_del_lookup in Hl. eauto.
+  - (* add sender *) split; [exact Hc|]. intros sid' a' Hl. cbn [adds with_arcs with_adds] in Hl. apply in_del_lookup in Hl. eauto.
   - (* unfiltered *) apply fresh_spec in H. destruct H as (Hn1 & Hn2 & _). pose proof (inv_len _ _ I) as Hl2.
     eapply (shape_upd s _ 0); [exact C | reflexivity | reflexivity|]. intros Hlt Hk. apply chok_subscribe; [exact Hk|].
     apply (no_cursor s 0 sid I Hlt Hn1). now apply no_a2_none.
@@ -131,9 +131,11 @@ Proof.
     eapply (shape_soc s); [intros c0; autorewrite with chat; eapply strict_rm_apply; eassumption | | exact Eadd | exact C]. cbn [chans with_tasks]. apply rm_apply_spec, rm_spec_tables in H1. tauto.
   - eapply (shape_soc s); [intros c0; autorewrite with chat; apply strict_rm_sender | cbn [chans with_tasks]; apply length_chans_rm | cbn [adds with_tasks]; apply adds_rm | exact C].
   - (* add sender, failed *) split.
-    + intros c0 Hlt. cbn [chans with_adds with_subs] in Hlt. rewrite chans_set_chan, length_upd in Hlt. autorewrite with chat.
+    + intros c0 Hlt. cbn [chans with_arcs with_adds with_subs] in Hlt. rewrite chans_set_chan, length_upd in Hlt. autorewrite with chat.
       destruct (Nat.eq_dec c0 c) as [->|Hne]; [rewrite chan_at_set_same by assumption; apply chok_drop; now apply Hc | rewrite chan_at_set_other by assumption; now apply Hc].
-    + intros sid' a' Hl. cbn [adds with_adds] in Hl. apply in_del_lookup in Hl. eauto.
+    + intros sid' a' Hl. cbn [adds with_arcs with_adds] in Hl. apply in_del_lookup in Hl. eauto.
+  - (* drop, shared rule *) apply (shape_bury s sid st) in C. exact C.
+  - apply (shape_bury s sid st) in C. exact C.
 Qed.
 
 Lemma shape_init : shape_ok init.
